@@ -65,7 +65,10 @@ var Table = map[string]Meta{
 		{Name: "mcrew", Race: true, InPkg: "cmd/mcrew", BQ: 1, BT: 1, Parallel: 1, HardS: 2400},
 		{Name: "sio", Race: true, BQ: 1, BT: 1, Parallel: 1, HardS: 2400},
 	}},
-	"C18": one("C18", "exploration", false, 1500),
+	"C18": {ID: "C18", Level: "exploration", Parts: []Part{
+		{Name: "main", BQ: 1, BT: 1, Parallel: 1, HardS: 1500},
+		{Name: "conc", Race: true, BQ: 1, BT: 1, Parallel: 1, HardS: 1500},
+	}},
 	"C19": one("C19", "exploration", false, 2400),
 	"C20": one("C20", "exploration", false, 1500),
 }
